@@ -32,6 +32,7 @@ For each change k = 1, 2, 3 write, under {wt}/out/<k>/ :
   patch.diff   the change as `git diff` output against HEAD (only library source files under scared/; apply each change on a clean tree: `git checkout -- scared` between changes),
   demo.py      a small standalone program (run as `PYTHONPATH=<tree> /venv/bin/python demo.py`) that exits 0 on the unchanged tree and exits 1 (printing what went wrong) with the change applied,
   notes.txt    which clause of the property it breaks, what it needs in order to manifest, and the exact commands you ran (tests, demo with and without the change) with their outcome.
+NEVER use `git stash` (the stash is shared by all worktrees of the repository and other agents work in sibling worktrees): use `git diff > file`, `git apply`, `git apply -R` and `git checkout -- scared` instead.
 Leave the worktree clean of source modifications at the end (`git checkout -- scared`); keep only PROPERTY.txt, INSTRUCTIONS.txt and out/.
 Final message: a three-line summary, one per change.
 """)
